@@ -39,6 +39,10 @@ pub fn run_spec(ctx: &Ctx, sp: &Spec) -> Report {
         if matches!(sp.prop, "C05" | "C14") && i % 4 == 3 {
             d.misuse_pm = 40;
         }
+        // C08: conservation of ids holds even when the application forgets to report a close before it reconnects
+        if sp.prop == "C08" && i % 4 == 3 {
+            d.skip_close_pm = 300;
+        }
         let out = d.run();
         rep.evaluations += 1;
         rep.api_calls += out.api_calls;
